@@ -7,8 +7,8 @@ The cargo features `adhoccounting`, `adhoccountmodels` (which enables `adhoccoun
 paths, max_depth, fix_import, generate_var_dependencies, var_dependencies}`. Here the feature
 set is a value (`Cfg`) and the store carries the two feature-dependent tables next to the proved
 `Store`: `deps` (= `var_deps`, present with `variablelist`) and `cnt` (= `count_cache`).
-`frontend` only sends each freshly created node over a channel that is `None` unless a client
-installs one; it touches no table and is not modelled beyond its flag.
+`frontend` sends each freshly created node over a channel that is `None` unless a client
+installs one (`FStore.sender`); the sent nodes are recorded in `FStore.log`, which no function reads.
 
 No Mathlib in the import closure; everything here is executable. -/
 
@@ -123,6 +123,13 @@ structure FStore where
   base : Store
   deps : Array (List Nat)
   cnt : CntCache
+  /-- `frontend`: is a `crossbeam_channel::Sender` attached (`set_sender` / `with_sender`)? The field
+  exists only under the feature; without it the flag is never read. -/
+  sender : Bool := false
+  /-- `frontend`: the nodes handed to `send` so far, oldest first (the channel is unbounded and
+  write-only for the store; a failed `send` is logged and ignored by the code, so the list records
+  the calls of `send`) -/
+  log : List Node := []
 
 /-- `Bdd::new` -/
 def newC (c : Cfg) : FStore :=
@@ -144,7 +151,9 @@ def nodeC (c : Cfg) (fs : FStore) (v lo hi : Nat) : FStore × Nat :=
                 match fs.cnt[lo]?, fs.cnt[hi]? with
                 | some l, some h => fs.cnt.insert fs.base.nodes.size (CN.adhoc c.adhoccountmodels l h)
                 | _, _ => fs.cnt
-              else fs.cnt },
+              else fs.cnt
+       sender := fs.sender
+       log := if c.frontend && fs.sender then fs.log ++ [⟨v, lo, hi⟩] else fs.log },
      fs.base.nodes.size)
 
 def FStore.insRes (fs : FStore) (k : Nat × Nat × Bool) (r : Nat) : FStore :=
